@@ -4,6 +4,5 @@ import "golang.org/x/tools/go/packages"
 
 func genConversions(p *packages.Package)               {}
 func genVint(p *packages.Package)                      {}
-func genCrcFacts(crc, seg *packages.Package)           {}
 func genDeepCopy(pkgs map[string]*packages.Package)    {}
 func genEffects(pkgs map[string]*packages.Package)     {}
